@@ -135,6 +135,7 @@ type srvScenario struct {
 	SendFailAt   int    // the n-th Send fails
 	NoUnblock    bool   // Close does not unblock a pending Recv (like channel.Direct)
 	DeadCtxAt    int    `json:",omitempty"` // the n-th base context handed out by ServerOptions.NewContext has already ended (0 = never)
+	LateCtxAt    int    `json:",omitempty"` // the n-th base context ends at the moment its Err method is first consulted (0 = never)
 	Restart      bool   // after WaitStatus, start the same server again and probe it
 	RestartCB    bool   // after WaitStatus, start the same server again and issue a callback while late replies to the first run's callbacks arrive
 }
@@ -442,6 +443,16 @@ func runServerScenario(t *testing.T, sc *srvScenario, pickFn func(n int) int, sk
 					dead, cancel := context.WithCancel(context.Background())
 					cancel()
 					return dead
+				}
+				return context.Background()
+			}
+		}
+		if sc.LateCtxAt > 0 && sc.DeadCtxAt == 0 {
+			nctx := 0
+			sopts.NewContext = func() context.Context {
+				nctx++
+				if nctx == sc.LateCtxAt {
+					return &lateCtx{Context: context.Background(), done: make(chan struct{})}
 				}
 				return context.Background()
 			}
@@ -770,6 +781,21 @@ func runServerScenario(t *testing.T, sc *srvScenario, pickFn func(n int) int, sk
 		}
 	})
 	return r
+}
+
+// lateCtx is a base context that is alive until somebody asks: the first call of Err ends it (Done
+// is closed, Err reports Canceled from then on). A request that has been granted an execution slot
+// under such a context has its slot, whatever the context says a moment later.
+type lateCtx struct {
+	context.Context
+	done chan struct{}
+	once sync.Once
+}
+
+func (c *lateCtx) Done() <-chan struct{} { return c.done }
+func (c *lateCtx) Err() error {
+	c.once.Do(func() { close(c.done) })
+	return context.Canceled
 }
 
 func statusText(st jrpc2.ServerStatus) string {
